@@ -60,13 +60,44 @@ def run(ctx):
                True, loc=nav.loc)
     # T20 from_parts
     fp = prog.func(CLS + '.from_parts')
-    src = ast.unparse(fp.node)
-    ok = 'ret = cls()' in src and 'ret.query_params.update(query_params)' in src and not any(
-        isinstance(n, ast.Assign) and any(txt(t) == 'ret.query_params' for t in n.targets) for n in ast.walk(fp.node))
-    ctx.ob('T20.fresh', fp.fq, 'the new URL starts from cls() and copies the query parameters with update() (never shares the mapping)', ok, loc=fp.loc)
-    pp = [n for n in ast.walk(fp.node) if isinstance(n, ast.Assign) and any(txt(t) == 'ret.path_parts' for t in n.targets)]
-    ok = bool(pp) and all('tuple(path_parts)' in txt(n.value) for n in pp)
-    ctx.ob('T20.fresh', fp.fq, 'path_parts of the result is a fresh tuple', ok, loc=fp.loc)
+    wf, fpaths = paths_of(prog, fp, recv=ci)
+    from sa.consteval import Folder as _Folder, Unknown as _Unknown
+    ffold = _Folder(prog.module('urlutils'))
+    n_ret = 0
+    for p in fpaths:
+        if p.kind != 'return':
+            continue
+        n_ret += 1
+        rv = p.outcome[1]
+        R = txt(rv)
+        made = wf.expand(rv) if rv is not None else None
+        fresh_obj = (isinstance(made, ast.Call) and call_name(made) in ('cls', 'URL', CLS.split('.')[-1]) and not made.args) or \
+            (R.startswith('$new') and any(o.kind == 'call' and call_name(o.val) in ('cls', 'URL') and not o.val.args and
+                                          isinstance(o.info, tuple) and o.info[0] == 'class' for o in p.ops))
+        upd = [o for o in p.ops if o.kind == 'call' and txt(o.val.func) == R + '.query_params.update' and
+               [txt(a) for a in o.val.args] == ['query_params']]
+        shared = [o for o in p.ops if o.kind == 'attr_store' and txt(o.val) == R + '.query_params']
+        ctx.ob('T20.fresh', fp.fq, 'the new URL starts from cls() and copies the query parameters with update() (never shares the mapping)',
+               fresh_obj and bool(upd) and not shared, loc=fp.loc, path=p.describe() if not (fresh_obj and upd and not shared) else None)
+        pstores = [o for o in p.ops if o.kind == 'attr_store' and txt(o.val) == R + '.path_parts']
+        ok = bool(pstores)
+        det = ''
+        for o in pstores:
+            e = wf.expand(o.info) if o.info is not None else None
+            alts = e.values if isinstance(e, ast.BoolOp) else [e]
+            for a in alts:
+                good = isinstance(a, ast.Call) and call_name(a) == 'tuple'
+                if not good and a is not None:
+                    try:
+                        good = isinstance(ffold.fold(a), tuple)       # an immutable constant
+                    except _Unknown:
+                        good = False
+                if not good:
+                    ok = False
+                    det = 'stores %s' % txt(e)
+        ctx.ob('T20.fresh', fp.fq, 'path_parts of the result is a fresh tuple', ok, loc=fp.loc, detail=det)
+    if n_ret == 0:
+        ctx.unknown('T20.fresh', fp.fq, 'no return path', fp.loc)
     # T9 navigate paths
     w, paths = paths_of(prog, nav, recv=ci)
     n_rel = 0
